@@ -411,7 +411,9 @@ class Inliner(object):
   def _callee(self, call, fn):
     f = call.func
     if isinstance(f, ast.Attribute) and not (isinstance(f.value, ast.Name) and (f.value.id in ('self', 'cls') or f.value.id[:1].isupper())):
-      return None
+      # self.<attr>.method(...): a collaborator object of this class, defined in the same module
+      if not (isinstance(f.value, ast.Attribute) and isinstance(f.value.value, ast.Name) and f.value.value.id == 'self'):
+        return None
     if not isinstance(f, (ast.Name, ast.Attribute)):
       return None
     if isinstance(f, ast.Name) and f.id in PURE_BUILTINS:
